@@ -72,6 +72,8 @@ type c07Case struct {
 	Part string `json:"part"` // body | query | return
 	Mode string `json:"mode"` // compiled | interpreted
 	Key  string `json:"key,omitempty"`
+	// imports (c07_imports_test.go)
+	Imports *c07ImportCase `json:"imports,omitempty"`
 	// body
 	Defs   c07Defs `json:"defs,omitempty"` // the input / return type is "T" where one is needed
 	Method string  `json:"method,omitempty"`
@@ -1194,6 +1196,17 @@ func TestVerif_C07(t *testing.T) {
 		if err := vk.LoadReplay(p.Replay, &c); err != nil {
 			t.Fatal(err)
 		}
+		if c.Imports != nil {
+			kind, detail, built := c07ImportsRun(c.Mode, c.Imports.Order)
+			fmt.Fprintf(stdout, "replay imports %v [%s] -> built=%v %s %s\n", c.Imports.Order, c.Mode, built, kind, detail)
+			ok := built && kind != ""
+			if ok {
+				res.Violate(c.Mode+"/imports/"+kind, detail, c)
+			}
+			res.Replayed = &ok
+			res.Write(p)
+			return
+		}
 		kind, reason, o, built := c07Eval(cache, c)
 		fmt.Fprintf(stdout, "replay %s -> built=%v kind=%q reason=%q observed: %s\n", c, built, kind, reason, o)
 		ok := built && kind != ""
@@ -1372,6 +1385,7 @@ func TestVerif_C07(t *testing.T) {
 	res.Bounds["query_declarations"] = len(c07QDecls())
 	res.Bounds["return_types"] = len(c07RetTypes(p.Thorough))
 	res.Bounds["modes"] = c07Modes
+	c07ImportsPart(p, res, len(work))
 	res.Write(p)
 }
 
